@@ -1,5 +1,5 @@
-From FlexVerif Require Import Model.Sec.
+From FlexVerif Require Import Model.Sec Model.SecListen.
 Require Extraction.
 Require Import ExtrOcamlBasic.
 Extraction Language OCaml.
-Extraction "c05_model.ml" Sec.dispatch.
+Extraction "c05_model.ml" SecListen.dispatch.
